@@ -930,7 +930,7 @@ package cache
 
 //@ func (*ShardedMap).Restore
 //@   props C13 C09
-//@   requires c.shardedMap != nil && repOK(c.shardedMap) && distinctHashes() && nonEmptyKeys()
+//@   requires c.shardedMap != nil && repOK(c.shardedMap) && distinctHashes()
 //@   requires gobPos() <= gobLen() && gobLen() < 4611686018427387904
 //@   let p0 := old(gobPos())
 //@   ensures [C13.restore.count] result0 == gobPos() - p0
@@ -941,9 +941,53 @@ package cache
 //@   loop 1 invariant [C13.restore.inv.rep] repOK(c.shardedMap)
 //@   replay restore backend:=sharded
 
+// Dump (C13), sequential contract (no concurrent writer while dumping), relative to the assumed encoding/gob
+// contract. Ghost: gobSrc(j) is the entry record j was encoded from, gobIdx(p) the index entry p was encoded at.
+// Every entry of the cache is encoded exactly once (entries), every appended record comes from an entry of the
+// cache (only), the count is the number of appended records, and the cache is unchanged. keyedOK - an entry is
+// stored under the hash of its own key - is established by Write and Restore.
+//@ def keyedOK(c) := forall h uint64 :: hasH(c, h) ==> hash(bytes(ent(c, h).K)) == h
+//@ def encoded(p, l0) := l0 <= gobIdx(p) && gobIdx(p) < gobLen() && gobSrc(gobIdx(p), *TraitEntry) == p && recIs(p, gobIdx(p))
+//@ def srcKey(j) := hash(bytes(gobSrc(j, *TraitEntry).K))
+//@ def srcOK(c, j) := gobSrc(j, *TraitEntry) != nil && hasH(c, srcKey(j)) && ent(c, srcKey(j)) == gobSrc(j, *TraitEntry) && gobIdx(gobSrc(j, *TraitEntry)) == j
+
+//@ func (*ShardedMap).Dump
+//@   props C13
+//@   requires c.shardedMap != nil && repOK(c.shardedMap) && keyedOK(c.shardedMap)
+//@   requires gobPos() <= gobLen() && gobLen() < 4611686018427387904
+//@   let l0 := old(gobLen())
+//@   ensures [C13.dump.count] result0 == gobLen() - l0 && result0 >= 0
+//@   ensures [C13.dump.entries] result1 == nil ==> forall h uint64 :: hasH(c.shardedMap, h) ==> encoded(ent(c.shardedMap, h), l0)
+//@   ensures [C13.dump.only] forall j int :: l0 <= j && j < gobLen() ==> srcOK(c.shardedMap, j)
+//@   ensures [C13.dump.kept] mapKept(c.shardedMap) && entriesKept()
+//@   ensures [C13.dump.prefix] forall j int :: 0 <= j && j < l0 ==> gobK(j) == old(gobK(j)) && gobV(j) == old(gobV(j)) && gobE(j) == old(gobE(j)) && gobC(j) == old(gobC(j))
+//@   modifies G|gob|* G|alloc
+
+//@ func (*shardedMap).Walk
+//@   inline
+//@   loop 1 (range c.hashedBuckets) invariant [C13.walk.o.bounds] -1 <= rangeindex && rangeindex <= 127
+//@   loop 1 invariant [C13.walk.o.count] n == gobLen() - old(gobLen()) && n >= 0
+//@   loop 1 invariant [C13.walk.o.done] forall h uint64 :: hasH(c, h) && h % 128 <= rangeindex ==> encoded(ent(c, h), old(gobLen()))
+//@   loop 1 invariant [C13.walk.o.only] forall j int :: old(gobLen()) <= j && j < gobLen() ==> srcOK(c, j) && srcKey(j) % 128 <= rangeindex
+//@   loop 1 invariant [C13.walk.o.kept] mapKept(c) && entriesKept()
+//@   loop 1 invariant [C13.walk.o.prefix] forall j int :: 0 <= j && j < old(gobLen()) ==> gobK(j) == old(gobK(j)) && gobV(j) == old(gobV(j)) && gobE(j) == old(gobE(j)) && gobC(j) == old(gobC(j))
+//@   loop 1 modifies G|gob|*
+//@   loop 2 (range b.data) invariant [C13.walk.i.count] n == gobLen() - old(gobLen()) && n >= 0
+//@   loop 2 invariant [C13.walk.i.visited] forall h uint64 :: hasH(c, h) && h % 128 == i && visited(h) ==> encoded(ent(c, h), old(gobLen()))
+//@   loop 2 invariant [C13.walk.i.done] forall h uint64 :: hasH(c, h) && h % 128 < i ==> encoded(ent(c, h), old(gobLen()))
+//@   loop 2 invariant [C13.walk.i.only] forall j int :: old(gobLen()) <= j && j < gobLen() ==>
+//@       srcOK(c, j) && (srcKey(j) % 128 < i || (srcKey(j) % 128 == i && visited(srcKey(j))))
+//@   loop 2 invariant [C13.walk.i.kept] mapKept(c) && entriesKept()
+//@   loop 2 invariant [C13.walk.i.prefix] forall j int :: 0 <= j && j < old(gobLen()) ==> gobK(j) == old(gobK(j)) && gobV(j) == old(gobV(j)) && gobE(j) == old(gobE(j)) && gobC(j) == old(gobC(j))
+//@   loop 2 modifies G|gob|*
+
+//@ func (*ShardedMapOf[V]).Restore
+//@   like (*ShardedMap).Restore subst recStored=recStoredOf shardedMap=shardedMapOf
+//@   replay restore backend:=shardedof
+
 //@ func (*SyncMap).Restore
 //@   props C13 C09
-//@   requires c.syncMap != nil && sRepOK(c.syncMap) && distinctKeys() && nonEmptyKeys()
+//@   requires c.syncMap != nil && sRepOK(c.syncMap) && distinctKeys()
 //@   requires gobPos() <= gobLen() && gobLen() < 4611686018427387904
 //@   let p0 := old(gobPos())
 //@   ensures [C13.sm.restore.count] result0 == gobPos() - p0
